@@ -14,8 +14,10 @@ variable {α : Type} [Add α] [Sub α] [Mul α] [Div α] [Neg α] [LT α] [LE α
 
 /-! ### spatial tracks -/
 
-/-- `EAR_DISTANCE`, `EAR_ANGLE_FROM_HEAD` of track/sub.rs; the default spatialization strength -/
-theorem Gen.earConstants_eq : (Gen.earDistance : α) = earDistance ∧ (Gen.earAngleFromHead : α) = earAngle
-    ∧ KOps.r32 (Gen.spatialDefaultSpatializationStrength : α) = lit32 (0.75 : α) := ⟨rfl, rfl, rfl⟩
+/-- `EAR_DISTANCE` = 0.1 (f32), `EAR_ANGLE_FROM_HEAD` = π/8 (f32) of track/sub.rs; the default spatialization
+    strength 0.75 -/
+theorem Gen.earConstants_eq : (Gen.earDistance : α) = lit32 (0.1 : α) ∧ (earDistance : α) = lit32 (0.1 : α)
+    ∧ (Gen.earAngleFromHead : α) = KOps.r32 (pi32 / (8.0 : α)) ∧ (earAngle : α) = KOps.r32 (pi32 / (8.0 : α))
+    ∧ KOps.r32 (Gen.spatialDefaultSpatializationStrength : α) = lit32 (0.75 : α) := ⟨rfl, rfl, rfl, rfl, rfl⟩
 
 end K
